@@ -100,7 +100,7 @@ func checkC07(c *Ctx) {
 	c.Rule("C07.strict", "WHO-MAY-CALL: inside decoders coordinates are parsed only by strict parsers (SetBytesCanonical / ByteOrder.Element); lenient setters (SetBytes, SetBigInt, SetString, SetInterface) are never applied to a component of the destination", 40)
 	c.Rule("C07.err", "ERRORS: in the stream codec (Decoder.Decode, Encoder.encode/encodeRaw, Vector/Domain/SRS/key/polynomial ReadFrom/WriteTo and their helpers) every error returned by a callee is inspected, and an error assigned inside a loop is tested before the next iteration overwrites it", 300)
 	c.Rule("C07.read", "READFULL: no decoder calls Reader.Read without comparing the returned count (short reads); io.ReadFull / binary.Read are used instead", 0)
-	c.Rule("C07.par", "PARALLEL-PHASE: in Decoder.Decode the closures that validate points in parallel increment an atomic error counter on every failing validation (unsafeComputeY error, IsInSubGroup false), and every accepting return that follows the parallel phase is dominated by the test counter == 0", 14)
+	c.Rule("C07.par", "PARALLEL-PHASE: in Decoder.Decode the closures that validate points in parallel record every failing validation (unsafeComputeY error, IsInSubGroup false) in an object shared with Decode — an atomic counter, or a call that writes a record captured by the closure — and every accepting return that follows the parallel phase is dominated by the test that nothing was recorded (counter == 0, recorded error == nil)", 14)
 	c.Rule("C07.sqrt", "PARTIAL: in decoders the result of Sqrt is compared with nil or the call is dominated by a Legendre != -1 test of the same operand", 20)
 
 	decName := regexp.MustCompile(`^(setBytes|unsafeSetCompressedBytes|unsafeComputeY|SetBytes|SetBytesCanonical)$`)
@@ -531,6 +531,16 @@ func checkParallelPhase(c *Ctx, p *Program, dec *ssa.Function) {
 						vals = append(vals, val{cc, ccl.Name})
 					case ccl.Pkg == "sync/atomic" && strings.HasPrefix(ccl.Name, "Add"):
 						adds = append(adds, cc)
+					default:
+						// a recorder: a call that writes an object shared with the caller (a free
+						// variable of the closure) — firstErr.report(i, err)
+						if len(cc.Call.Args) > 0 && !cc.Call.IsInvoke() {
+							if fv, isFV := addrBase(cc.Call.Args[0]).(*ssa.FreeVar); isFV && fv != nil && callMayWriteArg(cf, cc, cc.Call.Args[0]) {
+								if cal := cc.Call.StaticCallee(); cal != nil && strings.HasPrefix(fnPkgPath(cal), modPath) {
+									adds = append(adds, cc)
+								}
+							}
+						}
 					}
 				}
 			}
@@ -572,7 +582,7 @@ func checkParallelPhase(c *Ctx, p *Program, dec *ssa.Function) {
 				var cell ssa.Value
 				for i, fv := range cf.FreeVars {
 					for _, a := range adds {
-						if a.Call.Args[0] == ssa.Value(fv) {
+						if a.Call.Args[0] == ssa.Value(fv) || addrBase(a.Call.Args[0]) == ssa.Value(fv) {
 							cell = clo.Bindings[i]
 						}
 					}
@@ -587,6 +597,17 @@ func checkParallelPhase(c *Ctx, p *Program, dec *ssa.Function) {
 							continue
 						}
 						a := atomOf(iff.Cond)
+						if a.Kind == "nilcmp" {
+							// a field of the shared record compared with nil: the edge on which it is nil
+							if ld, isLoad := a.X.(*ssa.UnOp); isLoad && addrBase(ld.X) == cell {
+								nilEdge := 0
+								if a.Neg {
+									nilEdge = 1
+								}
+								deleted[edge{bb.Index, bb.Succs[nilEdge].Index}] = true
+							}
+							continue
+						}
 						if a.Kind != "cmp" {
 							continue
 						}
@@ -595,7 +616,7 @@ func checkParallelPhase(c *Ctx, p *Program, dec *ssa.Function) {
 						}
 						ld, isLoad := a.X.(*ssa.UnOp)
 						k, isZero := constInt(a.Y)
-						if !isLoad || ld.X != cell || !isZero || (k != 0 && k != 1) {
+						if !isLoad || addrBase(ld.X) != cell || !isZero || (k != 0 && k != 1) {
 							continue
 						}
 						// delete the edge on which counter == 0 holds; for an unsigned counter
